@@ -6,6 +6,7 @@ package c05
 import (
 	"fmt"
 	"math/rand"
+	"os"
 	"path/filepath"
 	"sort"
 
@@ -220,6 +221,12 @@ func addApply(ctx *core.Ctx, kind string, nodes []c05Node, raw map[string]string
 }
 
 func runC05(ctx *core.Ctx) {
+	if os.Getenv("VERIF_C05_ONLY") == "load" { // development switch: the round-6 streams alone
+		genLoad(ctx)
+		genWhole(ctx)
+		ctx.Wait()
+		return
+	}
 	// ------------------------------------------------------------ 0. tracker and plain ExtendService
 	genTrackerAndExtend(ctx)
 
@@ -294,6 +301,12 @@ func runC05(ctx *core.Ctx) {
 
 	// ------------------------------------------------------------ 2b. the file-system parameter: anchoring of a base file
 	genBase(ctx)
+
+	// ------------------------------------------------------------ 2c. the nested load inside the model: raw base files, virtual file system (c05load.go)
+	genLoad(ctx)
+
+	// ------------------------------------------------------------ 2d. the composed pipeline with extends (Props/C05Whole.lean): pipeline.load
+	genWhole(ctx)
 
 	// ------------------------------------------------------------ 3. malformed stream
 	genMalformed(ctx)
